@@ -207,3 +207,16 @@ Proof.
   destruct (noplain_cancel_exit c (join_wf n icaps ocaps) (join_simple n icaps ocaps) H1 H2 H3 s Hr Hcn Hq H4) as [Hd [Hc _]].
   split; [exact Hd|]. apply (Hc eq_refl). simpl. auto.
 Qed.
+
+From Golem Require Import Pipe.PoolGen.
+Lemma stages_wf (f : Z -> res) (fa : Z -> list Z * option Z) (p : Z -> bool) (try : bool) (n : Z) (m : nat)
+    (combine : Z -> Z -> Z) (empty seed : Z) (freq : N) (icaps ocaps : list nat) :
+  wf_cfg (map_cfg f try icaps ocaps) /\ wf_cfg (fmap_cfg fa try icaps ocaps) /\ wf_cfg (filter_cfg p icaps ocaps) /\
+  wf_cfg (partition_cfg p icaps ocaps) /\ wf_cfg (take_cfg n icaps ocaps) /\ wf_cfg (takewhile_cfg p icaps ocaps) /\
+  wf_cfg (visit_cfg icaps ocaps) /\ wf_cfg (fold_cfg combine empty icaps ocaps) /\ wf_cfg (join_stage m icaps ocaps) /\
+  wf_cfg (unfold_cfg f try seed ocaps) /\ wf_cfg (emit_cfg freq f try ocaps).
+Proof.
+  split; [apply map_wf|]. split; [apply fmap_wf|]. split; [apply filter_wf|]. split; [apply partition_wf|].
+  split; [apply take_wf|]. split; [apply takewhile_wf|]. split; [apply visit_wf|]. split; [apply fold_wf|].
+  split; [apply join_wf|]. split; [apply unfold_wf|apply emit_wf].
+Qed.
